@@ -86,20 +86,34 @@ def center_find(image, centers=1, threshold=.5, blursize=3.):
     bit longer.
     """
     image=copy(image)
-    if blursize>0:
-        image.values = gaussian_filter(image.values, blursize)
-    col_deriv, row_deriv = image_gradient(image)
+    if hasattr(image, 'dims') and 'x' in image.dims and 'y' in image.dims:
+        # rows are x and columns are y whatever order the image's dimensions
+        # are in; further dimensions (z, illumination) come last
+        image = image.transpose('x', 'y', ...)
     # pixels that are not square: the fringes are ellipses in pixel space,
-    # whose gradients do not point at the centre. The direction of the
-    # physical gradient, expressed in pixels, does.
+    # whose gradients do not point at the centre. Work with the physical
+    # gradient instead: blur isotropically in space, vote along its
+    # direction (expressed in pixels) with its magnitude.
     try:
         spacing_x, spacing_y = (float(np.diff(image[dim].values)[0])
                                 for dim in 'xy')
-    except (KeyError, IndexError, AttributeError):
+    except (KeyError, IndexError, AttributeError, TypeError):
         spacing_x = spacing_y = 1.
+    if blursize>0:
+        finer = min(spacing_x, spacing_y)
+        sigma = [0.] * image.values.ndim
+        sigma[0] = blursize * finer / spacing_x
+        sigma[1] = blursize * finer / spacing_y
+        image.values = gaussian_filter(image.values, sigma)
+    col_deriv, row_deriv = image_gradient(image)
     if spacing_x != spacing_y:
-        col_deriv = col_deriv * (spacing_y / spacing_x)
-        row_deriv = row_deriv * (spacing_x / spacing_y)
+        magnitude = np.hypot(col_deriv / spacing_x, row_deriv / spacing_y)
+        col_deriv = col_deriv / spacing_x**2
+        row_deriv = row_deriv / spacing_y**2
+        norm = np.hypot(col_deriv, row_deriv)
+        norm[norm == 0] = 1.
+        col_deriv = col_deriv * magnitude / norm * min(spacing_x, spacing_y)
+        row_deriv = row_deriv * magnitude / norm * min(spacing_x, spacing_y)
     while col_deriv.ndim > 2:
         col_deriv = col_deriv[:,:,0]
         row_deriv = row_deriv[:,:,0]
